@@ -3,7 +3,7 @@
 and /verif free. usage: tools/seedrun.py <name>=<patch>:<PROP>[,<PROP>...] ...   [--tier T] [--cfg dbg,...]
 Results are appended to /tmp/mt/results.jsonl."""
 import subprocess, sys, os, re, json, shutil, time
-MT = "/tmp/mt"
+MT = os.environ.get("SEEDRUN_MT", "/tmp/mt")
 args = sys.argv[1:]
 tier = "quick"; cfg = None
 if "--tier" in args:
